@@ -10,6 +10,7 @@ INFO = ("YRenderScalar (TLA+ reference): the presentations YAML 1.2.2 allows for
         "explicit key). Gen_Scalar: TLC enumerates every target of <= 2 characters over an 11-symbol tricky alphabet x style x context x every choice vector, "
         "every single character of a 27-symbol alphabet that has every named escape of section 5.7 (\\0 \\a \\b \\t \\<TAB> \\n \\v \\f \\r \\e \\<space> \\\" \\/ \\\\ \\N \\_ \\L \\P) in every form and context, 28 fixed "
         "targets whose middle word looks like syntax (--- ... - # ? : | > &x *x !t %Y [x] {x} quotes) under every placement of <= 2 line folds / escaped breaks, "
+        "10 targets with blanks next to folds (blanks written as escapes before / after a fold inside double quotes; padding before a break, empty lines and interior blanks together) under every <= 2 non-default choices, "
         "80 long words (14..257 characters) with '#', ':', a blank or a non-ASCII character at the sizes of the scanner's buffers, "
         "and simulates targets of <= 7 characters over the 27-symbol alphabet (NUL, ESC, NEL, astral, flow indicators); every rendered stream is replayed on the real parser through "
         "both back-ends and the scalar's value and style compared with the target; the scanner model must agree too (drift otherwise).",
@@ -30,7 +31,7 @@ def run(ck):
     outs = [m["out"]]
     # every character of the wide alphabet alone (the complete table of named escapes, every escape form, every context), and the
     # fixed targets (words that look like syntax -- document markers, indicators, comments -- at the start of a continuation line)
-    for cfg in ["Gen_Scalar_esc", "Gen_Scalar_fixed", "Gen_Scalar_long"]:
+    for cfg in ["Gen_Scalar_esc", "Gen_Scalar_fixed", "Gen_Scalar_long", "Gen_Scalar_fold"]:
         mm = props.tlc_cached(ck, "Gen_Scalar", cfg, deps, workers=8, keep_out=True, timeout=3600)
         if not mm["ok"]:
             raise ToolError("%s did not complete: %s" % (cfg, mm["tail"][-800:]))
